@@ -80,7 +80,7 @@ func H_c02(p []int) {
 
 // H_c02m: two operands in one call, the first under Safe() or Unsafe():
 // what the first leaves behind must not change how the second is classified.
-// p = [kind1, wrap1 (0 none, 1 Safe, 2 Unsafe), kind2, n]
+// p = [kind1, wrap1 (0 none, 1 Safe, 2 Unsafe, 3-6 nested pairs), kind2, n]
 func H_c02m(p []int) {
 	k1, w1, k2, n := p[0], p[1], p[2], p[3]
 	bs := vBytes(n)
@@ -95,6 +95,15 @@ func H_c02m(p []int) {
 		a = redact.Safe(mkValue(k1, "pub", 7))
 	case 2:
 		a = redact.Unsafe(mkValue(k1, string(bs), 7))
+	// nested wrappers: the outermost decides, and nothing is left behind
+	case 3:
+		a = redact.Safe(redact.Safe(mkValue(k1, "pub", 7)))
+	case 4:
+		a = redact.Safe(redact.Unsafe(mkValue(k1, "pub", 7)))
+	case 5:
+		a = redact.Unsafe(redact.Safe(mkValue(k1, string(bs), 7)))
+	case 6:
+		a = redact.Unsafe(redact.Unsafe(mkValue(k1, string(bs), 7)))
 	default:
 		a = mkValue(k1, string(bs), 7)
 	}
